@@ -338,9 +338,9 @@ Fixpoint utf8_valid (s : bytes) : bool :=
 
 (* what decode_datagram returns: the constructed object's fields (Python values, not yet typed) *)
 Inductive rawmsg : Type :=
-| RReq (rpc node method args : bval)
-| RResp (rpc node response : bval)
-| RErr (rpc node : bval) (etype text : bytes).
+| RReq (rpc node : bytes) (method args : bval)
+| RResp (rpc node : bytes) (response : bval)
+| RErr (rpc node etype text : bytes).
 
 Definition RPC_ID_LENGTH : N := 20.
 Definition HASH_LENGTH : N := 48.
@@ -375,26 +375,15 @@ Definition converted (d : list (bval * bval)) : list (bytes * bval) :=
 
 Definition field (c : list (bytes * bval)) (i : N) : option bval := assoc_get c [digit_byte i].
 
-(* len(x) *)
-Definition py_len (v : bval) : res N :=
-  match v with
-  | BInt _ => Err EType
-  | BStr s => Ok (blen s)
-  | BList l => Ok (N.of_nat (length l))
-  | BDict d => Ok (N.of_nat (length d))
-  end.
-
 (* KademliaDatagramBase.__init__ (the packet type always equals the expected one: the class was
-   chosen from it) *)
-Definition check_ids (rpc node : bval) : option err :=
-  match py_len rpc with
-  | Err e => Some e
-  | Ok n =>
-      if negb (n =? RPC_ID_LENGTH) then Some EValue
-      else match py_len node with
-           | Err e => Some e
-           | Ok m => if negb (m =? HASH_LENGTH) then Some EValue else None
-           end
+   chosen from it).  After fix 774587f both ids must be `bytes` (ValueError otherwise), then the lengths. *)
+Definition check_ids (rpc node : bval) : res (bytes * bytes) :=
+  match rpc, node with
+  | BStr r, BStr n =>
+      if negb (blen r =? RPC_ID_LENGTH) then Err EValue
+      else if negb (blen n =? HASH_LENGTH) then Err EValue
+      else Ok (r, n)
+  | _, _ => Err EValue
   end.
 
 Definition truthy (v : bval) : bool :=
@@ -445,11 +434,11 @@ Definition build_request (c : list (bytes * bval)) : rawmsg + err :=
   match field c 1, field c 2, field c 3 with
   | Some rpc, Some node, Some method =>
       match check_ids rpc node with
-      | Some e => inr e
-      | None => match norm_args (field c 4) with
-                | Ok a => inl (RReq rpc node method a)
-                | Err e => inr e
-                end
+      | Err e => inr e
+      | Ok (r, n) => match norm_args (field c 4) with
+                     | Ok a => inl (RReq r n method a)
+                     | Err e => inr e
+                     end
       end
   | _, _, _ => inr EType                 (* missing required positional argument *)
   end.
@@ -458,8 +447,8 @@ Definition build_response (c : list (bytes * bval)) : rawmsg + err :=
   match field c 1, field c 2, field c 3 with
   | Some rpc, Some node, Some r =>
       match check_ids rpc node with
-      | Some e => inr e
-      | None => inl (RResp rpc node r)
+      | Err e => inr e
+      | Ok (ri, n) => inl (RResp ri n r)
       end
   | _, _, _ => inr EType
   end.
@@ -468,14 +457,14 @@ Definition build_error (c : list (bytes * bval)) : rawmsg + err :=
   match field c 1, field c 2, field c 3, field c 4 with
   | Some rpc, Some node, Some et, Some tx =>
       match check_ids rpc node with
-      | Some e => inr e
-      | None => match py_decode_utf8 et with
-                | Err e => inr e
-                | Ok ets => match py_decode_utf8 tx with
-                            | Err e => inr e
-                            | Ok txs => inl (RErr rpc node ets txs)
-                            end
-                end
+      | Err e => inr e
+      | Ok (r, n) => match py_decode_utf8 et with
+                     | Err e => inr e
+                     | Ok ets => match py_decode_utf8 tx with
+                                 | Err e => inr e
+                                 | Ok txs => inl (RErr r n ets txs)
+                                 end
+                     end
       end
   | _, _, _, _ => inr EType
   end.
@@ -545,9 +534,9 @@ Definition encode_message (m : message) : bytes := benc (value_of_message m).
 
 Definition raw_of_message (m : message) : rawmsg :=
   match m with
-  | Request rpc node r => RReq (BStr rpc) (BStr node) (BStr (method_of r)) (BList (args_of node r))
-  | Response rpc node p => RResp (BStr rpc) (BStr node) p
-  | Error rpc node et tx => RErr (BStr rpc) (BStr node) et tx
+  | Request rpc node r => RReq rpc node (BStr (method_of r)) (BList (args_of node r))
+  | Response rpc node p => RResp rpc node p
+  | Error rpc node et tx => RErr rpc node et tx
   end.
 
 (* response payloads the node produces (KademliaRPC.ping/store/find_node/find_value) *)
